@@ -56,7 +56,7 @@ CFG = {
     "assumptions": [
         "geometries have no nil members (a nil interface inside a GeometryCollection or a nil *Bounds panics in Go; the model reproduces it, the theorems exclude it by `noNil`)",
         "nil slices and empty slices are not distinguished",
-        "NewTransform's nil-if-Equal answer can flip once a constructor has run on one of two equal SRs (noted, outside the property): such a flip on a transformer built between calls is skipped",
+        "NewTransform's nil-if-Equal answer can flip once a constructor has run on one of two SRs: on a transformer built between calls the flip is skipped ONLY when the two definitions denote the same CRS after the constructors' defaults (tsame record, own field-by-field comparison within 4 ulp); between different CRSs it is a SPEC failure (NewTransform-nil-depends-on-history)",
         "axis strings have three letters (what projString accepts; DeriveConstants defaults to enu)",
     ],
     "rule": "gt lines: grammar-generated geometries of all 8 types (nesting <= 3, member counts 0..7, coordinates from random bit patterns, NaN payloads, "
